@@ -173,10 +173,16 @@ def main():
     # 1. constants extracted from the source under test
     import extract
     try:
-        changed = extract.regenerate(args.repo)
+        changed, failures = extract.regenerate(args.repo)
         if changed:
             notes.append("Generated.lean rewritten from %s" % args.repo)
-    except Exception as e:  # source restructured: a broken tie
+        for g, msg in sorted(failures.items()):
+            # a constant group the extractor no longer understands is a broken tie of the properties that read it
+            if pid in extract.GROUPS[g][1]:
+                problems.append("extractor: constant group '%s' not found in the source (%s); baseline values used" % (g, msg))
+            else:
+                notes.append("extractor: group '%s' not extracted (%s); not read by %s" % (g, msg, pid))
+    except Exception as e:  # source unreadable: a broken tie
         problems.append("extractor: %s: %s" % (type(e).__name__, e))
 
     # 2. build
@@ -220,16 +226,13 @@ def main():
         discharged = 0
     # thorough tier: the independent re-checker replays the compiled modules of this property
     if args.tier == "thorough" and props_built and thm_names:
-        mods = []
-        for sub in ("Model", "Spec", "Lemmas"):
-            d = os.path.join(core.LEAN, "Anytree", sub)
-            mods += ["Anytree.%s.%s" % (sub, f[:-5]) for f in sorted(os.listdir(d)) if f.endswith(".lean")]
-        mods += getattr(mod, "MODULES", ["Anytree.Props.%s" % pid])
-        rc, out = core.sh(["lake", "env", "leanchecker"] + mods, cwd=core.LEAN, timeout=3000)
+        mods = core.import_closure(getattr(mod, "MODULES", ["Anytree.Props.%s" % pid]))
+        with core.BuildLock():      # no rebuild (for another --repo) may swap the object files under the checker
+            rc, out = core.sh(["lake", "env", "leanchecker"] + mods, cwd=core.LEAN, timeout=3000)
         if rc != 0:
             problems.append("leanchecker rejects the compiled modules: %s" % out[-500:])
         else:
-            notes.append("leanchecker replayed %d modules: ok" % len(mods))
+            notes.append("leanchecker replayed %d modules (import closure of the property's theorem files): ok" % len(mods))
 
     # 4. cases
     known = [k for k in load_known() if k["property"] == pid]
@@ -244,6 +247,25 @@ def main():
         if os.path.exists(corpus):
             cases.extend(json.loads(l) for l in open(corpus) if l.strip())
         cases.extend(mod.generate(args.tier, rng))
+        # the package source differs from the baseline the model was last validated against (harness/srcbase.py): not a
+        # verdict, but a reason to look harder - the random part of the generation is repeated under further seeds
+        import srcbase
+        try:
+            changed_src = srcbase.changed_files(args.repo)
+        except Exception as e:  # noqa: BLE001
+            changed_src = ["<baseline unreadable: %s>" % e]
+        if changed_src:
+            seen = {case_key(c) for c in cases}
+            n0 = len(cases)
+            for extra in range(1, (3 if args.tier == "quick" else 2)):
+                rng_x = random.Random("%s/%s/%d/escalate%d" % (pid, args.tier, seed, extra))
+                for c in mod.generate(args.tier, rng_x):
+                    k = case_key(c)
+                    if k not in seen:
+                        seen.add(k)
+                        cases.append(c)
+            notes.append("source differs from the validated baseline in %s: search widened from %d to %d cases"
+                         % (", ".join(changed_src[:6]), n0, len(cases)))
     if hasattr(mod, "run"):
         # properties with their own pipeline (relational ties etc.)
         return mod.run(args, seed, t0, cases, known, problems, notes, discharged, axioms_used)
